@@ -28,3 +28,6 @@ def grammars(tier, seed, n_random=1500, exhaustive_prods=3):
         ts = ['a', 'b'] if r2 < 0.8 else (['a', rng.choice(RESERVED_T)] if r2 < 0.88 else rng.choice([['a', 'ab', 'b', 'bb'], [1, 12, 2, 22], ['a', 'ab', 'b']]))
         if set(vs) & set(ts): ts = ['a', 'b']          # a variable and a terminal with the same value are not distinguishable by the library (value-class asymmetry, DESIGN 2.1): out of scope
         yield S.random_grammar(rng, vs, ts, rng.choice([2, 3, 3, 4]), rng.choice([2, 3, 4, 5, 6])), 'random'
+    rng3 = random.Random(seed * 15485863 + 3)          # appended family (the random stream above is unchanged)
+    for i in range(n_random // 3):
+        yield S.random_nullable_heavy(rng3), 'random nullable-heavy, 3-5 variables'
